@@ -138,6 +138,11 @@ package rapidcore
 // C10: the reservation is made by the release goroutine and given back inside AwaitRelease (or by the reset); the caller's own
 // goroutine holds none, and Release gives back whatever reservation is current, which by then may be the next caller's
 //@   ensures [C10: a-caller-gives-back-no-reservation-it-does-not-hold] delta(ServerReleased) == 0
+// C07 ("every invocation receives an outcome within the function timeout plus the fixed reset allowance"): after the timeout's
+// reset the release goroutine reports exactly once, on one of two channels; the wait accepts either (a wait for the success
+// report alone never ends when the release goroutine reports a failure: its send has no receiver)
+//@   reachable [C07: after-a-timeout-a-failure-report-ends-the-wait] delta(TimeoutFired) == 1 && delta(ReleaseFailedSeen) == 1
+//@   reachable [C07: after-a-timeout-a-success-report-ends-the-wait] delta(TimeoutFired) == 1 && delta(ReleaseSucceededSeen) == 1
 //@   ensures [failure-is-handed-on-without-a-second-reset] delta(TimeoutFired) == 0 && delta(ReleaseFailedSeen) == 1 ==> r0 != nil && delta(ServerReset) == 0 && delta(ServerReleased) == 0
 
 // C10: the reservation is given back exactly when the completion was received: once, by the one who awaited it
